@@ -32,6 +32,10 @@ func NewRetryHandler(discoveryService ports.DiscoveryService, logger logger.Styl
 	}
 }
 
+// ErrCircuitOpen marks an attempt that was not made because the endpoint's circuit breaker is open.
+// The retry handler treats it as "skip this endpoint and try the next candidate".
+var ErrCircuitOpen = errors.New("circuit breaker open")
+
 // ProxyFunc defines the signature for endpoint proxy implementations
 type ProxyFunc func(ctx context.Context, w http.ResponseWriter, r *http.Request, endpoint *domain.Endpoint, stats *ports.RequestStats) error
 
@@ -80,6 +84,12 @@ func (h *RetryHandler) ExecuteWithRetry(
 
 		if lastErr == nil {
 			return nil
+		}
+
+		if errors.Is(lastErr, ErrCircuitOpen) {
+			// the endpoint was skipped and nothing was sent: another candidate may still serve the request
+			availableEndpoints = h.removeFailedEndpoint(availableEndpoints, endpoint)
+			continue
 		}
 
 		if !IsConnectionError(lastErr) {
